@@ -199,7 +199,11 @@ func (s *server) CreateTable(ctx context.Context, req *btapb.CreateTableRequest)
 	req.Table.Name = tbl
 	// req.Table becomes the live table definition: respond with a copy taken before it is shared
 	def := proto.Clone(req.Table).(*btapb.Table)
-	rows := s.storage.Create(req.Table)
+	rows, err := createRows(s.storage, req.Table)
+	if err != nil {
+		s.mu.Unlock()
+		return nil, status.Errorf(codes.InvalidArgument, "cannot create table %q: %v", tbl, err)
+	}
 	s.tables[tbl] = newTable(req.Table, rows)
 
 	s.mu.Unlock()
@@ -213,6 +217,18 @@ func (s *server) CreateTable(ctx context.Context, req *btapb.CreateTableRequest)
 		ct.Granularity = btapb.Table_MILLIS
 	}
 	return ct, nil
+}
+
+// createRows asks the storage layer for a new table. Storage layers panic when they cannot create
+// it (for instance a table id the file system rejects): report that as an error instead of dying
+// with the registry locked.
+func createRows(storage Storage, tbl *btapb.Table) (rows Rows, err error) {
+	defer func() {
+		if p := recover(); p != nil {
+			err = fmt.Errorf("%v", p)
+		}
+	}()
+	return storage.Create(tbl), nil
 }
 
 func (s *server) ListTables(ctx context.Context, req *btapb.ListTablesRequest) (*btapb.ListTablesResponse, error) {
